@@ -2,6 +2,7 @@ package main
 
 import (
 	"bufio"
+	"math/big"
 	"os"
 	"fmt"
 	"io"
@@ -152,6 +153,46 @@ func (s *Solver) Check(ts []*Term) string {
 }
 
 // after a sat Check, Values may be asked; then Done must be called
+// LastRats holds, after Values, the values of the Real-sorted terms as "num/den" strings (by term name)
+var LastRats = map[string]string{}
+
+
+// parseRat understands z3's numerals: 3.0, (- 3.0), (/ 1.0 3.0), (- (/ 1.0 3.0)), (/ (- 1.0) 3.0)
+func parseRat(v string) (string, bool) {
+	neg := strings.Count(v, "-")%2 == 1
+	clean := strings.NewReplacer("(", " ", ")", " ", "-", " ", "/", " ").Replace(v)
+	f := strings.Fields(clean)
+	if strings.Contains(v, "root-obj") || len(f) == 0 || len(f) > 2 {
+		return "", false
+	}
+	num := strings.TrimSuffix(f[0], ".0")
+	den := "1"
+	if len(f) == 2 {
+		den = strings.TrimSuffix(f[1], ".0")
+	}
+	if strings.ContainsAny(num+den, ".eE") {
+		r, ok := new(big.Rat).SetString(f[0])
+		if !ok {
+			return "", false
+		}
+		if len(f) == 2 {
+			d, ok := new(big.Rat).SetString(f[1])
+			if !ok || d.Sign() == 0 {
+				return "", false
+			}
+			r.Quo(r, d)
+		}
+		if neg {
+			r.Neg(r)
+		}
+		return r.RatString(), true
+	}
+	if neg {
+		num = "-" + num
+	}
+	return num + "/" + den, true
+}
+
 func (s *Solver) Values(ts []*Term) []uint64 {
 	res := make([]uint64, len(ts))
 	for i, t := range ts {
@@ -174,6 +215,14 @@ func (s *Solver) Values(ts []*Term) []uint64 {
 		l = strings.TrimSuffix(strings.TrimPrefix(l, "(("), "))")
 		parts := strings.SplitN(l, " ", 2)
 		v := strings.TrimSpace(parts[1])
+		if t.w == -1 {
+			if r, ok := parseRat(v); ok {
+				LastRats[t.name] = r
+			} else {
+				LastRats[t.name] = "?"
+			}
+			continue
+		}
 		switch {
 		case v == "true":
 			res[i] = 1
